@@ -89,8 +89,11 @@ def obligations(cx):
         for typ in ('molar', 'weight'):
             comp = W.composition(src, Xf, typ)
             for fnm in ('calculate_activity_coefficients', 'get_partial_pressures'):
-                ps = cx.explore(call(src, fnm, [], dict(temperature=Tt, mixture=m, composition=comp, calculation_type=model)), pre=[Tt > 0, Xf > 0, Xf < 1] + W.mixture_pre())
-                all_raise(cx, "incomplete.%s.%s.%s" % (label, fnm, typ), ps, ERR, function=fnm, statement="an activity model whose parameters or component constants are missing is rejected")
+                ps = cx.explore(call(src, fnm, [], dict(temperature=Tt, mixture=m, composition=comp, calculation_type=model)), pre=[Tt > 0, Xf >= 0, Xf <= 1] + W.mixture_pre())
+                all_raise(cx, "incomplete.%s.%s.%s" % (label, fnm, typ), ps, ERR, function=fnm, statement="an activity model whose parameters or component constants are missing is rejected, for every composition in [0,1]")
+                for xe in (0, 1):
+                    pse = cx.explore(call(src, fnm, [], dict(temperature=Tt, mixture=m, composition=W.composition(src, lift(xe), typ), calculation_type=model)), pre=[Tt > 0] + W.mixture_pre())
+                    all_raise(cx, "incomplete.%s.%s.%s.x=%d" % (label, fnm, typ, xe), pse, ERR, function=fnm, statement="also for a pure component")
     # callers see the same rejection through the contracts (cac / gpp / cpf contracts raise under the same conditions)
     n = var('n', 'I')
     cx.under_contract('Membrane.calculate_activation_energy')
